@@ -145,6 +145,87 @@ fn after_case(n: u64) -> String {
     format!("{{% set ns = namespace(o=none) %}}{}{}", maker, AFTER_USES[(n as usize) % AFTER_USES.len()])
 }
 
+/// special calls where nothing provides them: inside templates reached by include / import / from
+/// import / extends from every kind of place
+const COMPOSE_INNER: &[&str] = &[
+    "{{ super() }}", "{{ self.b() }}", "{{ self.nope() }}", "{{ caller() }}", "{{ loop }}{{ loop.index }}", "{{ loop([1]) }}", "{% block b %}{{ super() }}{% endblock %}", "{% block other %}{{ super() }}{{ self.b() }}{% endblock %}",
+    "{% extends 'host' %}", "{% extends 'leaf' %}{% block b %}{{ super() }}{% endblock %}", "{{ varargs }}{{ kwargs }}", "{% macro im() %}{{ super() }}{{ caller() }}{{ self.b() }}{% endmacro %}{{ im() }}",
+    "{% include 'leaf' %}{{ super() }}", "{% set x = super %}{{ x() }}", "{% for q in [1] %}{{ super() }}{{ loop.index }}{% endfor %}",
+];
+const COMPOSE_PLACES: &[(&str, &str)] = &[
+    ("top", "@"),
+    ("in_block", "{% block b %}@{% endblock %}"),
+    ("in_child_block", "{% extends 'base' %}{% block b %}[{{ super() }}]@{% endblock %}"),
+    ("in_macro", "{% macro hm() %}@{% endmacro %}{{ hm() }}"),
+    ("in_call_block", "{% macro hw() %}{{ caller() }}{% endmacro %}{% call hw() %}@{% endcall %}"),
+    ("in_loop", "{% for i in [1, 2] %}@{% endfor %}"),
+    ("in_recursive_loop", "{% for i in [[1]] recursive %}@{% if i is iterable %}{{ loop(i) }}{% endif %}{% endfor %}"),
+    ("in_block_in_loop", "{% for i in [1] %}{% block b %}@{% endblock %}{% endfor %}"),
+    ("in_set_block", "{% set cap %}@{% endset %}{{ cap }}"),
+];
+const COMPOSE_VIA: &[&str] = &["{% include 'inner' %}", "{% import 'inner' as m %}{{ m }}", "{% from 'inner' import im %}{{ im() if im is defined }}", "{% include ['nope', 'inner'] %}{% include 'inner' %}"];
+
+fn compose_case(n: u64) -> Vec<(String, String)> {
+    let n = n as usize;
+    let inner = COMPOSE_INNER[n % COMPOSE_INNER.len()];
+    let place = COMPOSE_PLACES[(n / COMPOSE_INNER.len()) % COMPOSE_PLACES.len()].1;
+    let via = COMPOSE_VIA[n / COMPOSE_INNER.len() / COMPOSE_PLACES.len()];
+    vec![
+        ("host".to_string(), place.replace('@', via)),
+        ("inner".to_string(), inner.to_string()),
+        ("base".to_string(), "<{% block b %}B{% endblock %}>".to_string()),
+        ("leaf".to_string(), "L{% block b %}lb{% endblock %}".to_string()),
+    ]
+}
+
+/// N distinct things of one kind in one template, N around every small-table size an implementation
+/// is likely to use (the first N - 1 may sit in dead code; the last one runs)
+const COUNT_KINDS: &[&str] = &[
+    "filters_dead_then_live", "filters_all_live", "tests_dead_then_live", "tests_all_live", "locals", "macro_params", "macros", "blocks", "call_args", "kwargs", "list_items", "map_keys", "with_targets", "unpack_targets", "nested_attrs",
+    "filter_args", "includes", "set_blocks", "loop_vars", "string_concat",
+];
+const COUNT_NS: &[usize] = &[31, 32, 33, 49, 50, 51, 52, 63, 64, 65, 127, 128, 129, 255, 256, 257, 1000, 4096, 65535, 65536];
+
+fn count_case(n: u64) -> String {
+    let kind = COUNT_KINDS[(n as usize) / COUNT_NS.len()];
+    let k = COUNT_NS[(n as usize) % COUNT_NS.len()];
+    let seq = |f: &dyn Fn(usize) -> String, sep: &str| (0..k).map(f).collect::<Vec<_>>().join(sep);
+    match kind {
+        "filters_dead_then_live" => format!("{{% if false %}}{}{{% endif %}}{{{{ x|upper }}}}{{{{ x|lower }}}}", seq(&|i| format!("{{{{ x|nofilter{} }}}}", i), "")),
+        "filters_all_live" => {
+            let names = ["upper", "lower", "string", "trim", "title", "capitalize", "e", "escape", "safe", "list", "first", "last", "length", "count", "int", "float", "abs", "bool", "d", "default"];
+            format!("{{% if false %}}{}{{% endif %}}{}", seq(&|i| format!("{{{{ x|nf{} }}}}", i), ""), names.iter().map(|f| format!("{{{{ s|{} }}}}", f)).collect::<String>())
+        }
+        "tests_dead_then_live" => format!("{{% if false %}}{}{{% endif %}}{{{{ x is defined }}}}{{{{ x is odd }}}}", seq(&|i| format!("{{{{ x is notest{} }}}}", i), "")),
+        "tests_all_live" => format!("{{% if false %}}{}{{% endif %}}{{{{ x is defined }}}}{{{{ x is undefined }}}}{{{{ x is odd }}}}{{{{ x is even }}}}{{{{ x is number }}}}{{{{ x is string }}}}{{{{ s is string }}}}", seq(&|i| format!("{{{{ x is nt{} }}}}", i), "")),
+        "locals" => format!("{}{{{{ v0 }}}}{{{{ v{} }}}}", seq(&|i| format!("{{% set v{} = {} %}}", i, i), ""), k - 1),
+        "macro_params" => format!("{{% macro mm({}) %}}{{{{ p0 }}}}{{{{ p{} }}}}{{% endmacro %}}{{{{ mm({}) }}}}{{{{ mm() }}}}", seq(&|i| format!("p{}={}", i, i), ", "), k - 1, seq(&|i| i.to_string(), ", ")),
+        "macros" => format!("{}{{{{ m0() }}}}{{{{ m{}() }}}}", seq(&|i| format!("{{% macro m{}() %}}{}{{% endmacro %}}", i, i), ""), k - 1),
+        "blocks" => format!("{}{{{{ self.b0() }}}}{{{{ self.b{}() }}}}", seq(&|i| format!("{{% block b{} %}}{}{{% endblock %}}", i, i), ""), k - 1),
+        "call_args" => format!("{{{{ range({}) }}}}{{{{ dict({}) }}}}", seq(&|i| i.to_string(), ", "), seq(&|i| format!("k{}={}", i, i), ", ")),
+        "kwargs" => format!("{{% macro mk() %}}{{{{ kwargs|length }}}}{{% endmacro %}}{{{{ mk({}) }}}}", seq(&|i| format!("k{}={}", i, i), ", ")),
+        "list_items" => format!("{{{{ [{}]|length }}}}{{{{ ({},)|length }}}}", seq(&|i| i.to_string(), ", "), seq(&|i| format!("x + {}", i), ", ")),
+        "map_keys" => format!("{{{{ {{{}}}|length }}}}", seq(&|i| format!("'k{}': x", i), ", ")),
+        "with_targets" => format!("{{% with {} %}}{{{{ w0 }}}}{{{{ w{} }}}}{{% endwith %}}", seq(&|i| format!("w{} = {}", i, i), ", "), k - 1),
+        "unpack_targets" => format!("{{% set {} = range({}) %}}{{{{ u0 }}}}{{{{ u{} }}}}", seq(&|i| format!("u{}", i), ", "), k, k - 1),
+        // (chains of attributes and of ~ are the depth family's business: known findings)
+        "nested_attrs" => seq(&|i| format!("{{{{ m.a{} }}}}", i), ""),
+        "filter_args" => format!("{{{{ x|default({}) }}}}{{{{ '%s'|format({}) }}}}", seq(&|i| i.to_string(), ", "), seq(&|i| i.to_string(), ", ")),
+        "includes" => seq(&|_| "{% include 'p' %}".to_string(), ""),
+        "set_blocks" => format!("{}{{{{ c0 }}}}", seq(&|i| format!("{{% set c{} %}}{}{{% endset %}}", i, i), "")),
+        "loop_vars" => format!("{{% for {} in [range({})] %}}{{{{ l0 }}}}{{{{ l{} }}}}{{% endfor %}}", seq(&|i| format!("l{}", i), ", "), k, k - 1),
+        _ => seq(&|i| format!("{{{{ '{}' ~ x }}}}", i), ""),
+    }
+}
+
+/// collecting filters over lazily repeated sequences: just under and far over the size the engine
+/// accepts
+const BIG_LAZY_FILTERS: &[&str] = &[
+    "batch(2)|length", "list|length", "sort|length", "reverse|length", "slice(2)|length", "unique|list|length", "join|length", "sum", "min", "max", "last", "first", "length", "map('string')|list|length", "select|list|length",
+    "tojson|length", "string|length", "groupby('x')|length", "items", "dictsort", "indent|length", "random", "pprint|length", "e|length", "urlencode|length",
+];
+const BIG_LAZY_RECEIVERS: &[&str] = &["([1] * 1000000000000)", "([1, 2] * 9223372036854775807)", "([1] * 300000)", "('ab' * 1000000000000)", "((1,) * 1000000000000)", "(([1] * 1000000) * 1000000)"];
+
 fn ranked_string(mut n: u64, alphabet: &[&str]) -> String {
     // ranks all strings of length 0,1,2,... in order
     let base = alphabet.len() as u64;
@@ -423,6 +504,32 @@ fn run_case(family: &str, n: u64, cc: &mut ChildCtx) {
         "afterlife" => {
             exercise_template(env, &after_case(n), &ctx, cc);
         }
+        "compose" => {
+            let mut e2 = base_env();
+            let mut ok = true;
+            for (name, src) in compose_case(n) {
+                ok &= e2.add_template_owned(name, src).map_err(|e| fmt_error(&e)).is_ok();
+            }
+            if ok {
+                match e2.get_template("host").and_then(|t| t.render(ctx.clone())) {
+                    Ok(_) => cc.outcome("rendered"),
+                    Err(e) => {
+                        fmt_error(&e);
+                        cc.outcome("render error");
+                    }
+                }
+            } else {
+                cc.outcome("load error");
+            }
+        }
+        "counts" => {
+            exercise_template(env, &count_case(n), &ctx, cc);
+        }
+        "big_lazy" => {
+            let f = BIG_LAZY_FILTERS[(n as usize) % BIG_LAZY_FILTERS.len()];
+            let r = BIG_LAZY_RECEIVERS[(n as usize) / BIG_LAZY_FILTERS.len()];
+            exercise_template(env, &format!("{{{{ {}|{} }}}}", r, f), &ctx, cc);
+        }
         "format_specs" => {
             let (a, b) = fmt_case(n);
             exercise_template(env, &a, &ctx, cc);
@@ -466,6 +573,9 @@ fn describe(family: &str, n: u64) -> String {
             let (a, b) = fmt_case(n);
             format!("{} / {}", a, b)
         }
+        "compose" => format!("{:?}", compose_case(n)),
+        "counts" => format!("{} x{} :: {}", COUNT_KINDS[(n as usize) / COUNT_NS.len()], COUNT_NS[(n as usize) % COUNT_NS.len()], count_case(n).chars().take(300).collect::<String>()),
+        "big_lazy" => format!("{{{{ {}|{} }}}}", BIG_LAZY_RECEIVERS[(n as usize) / BIG_LAZY_FILTERS.len()], BIG_LAZY_FILTERS[(n as usize) % BIG_LAZY_FILTERS.len()]),
         "afterlife" => format!("{} :: {}", AFTER_MAKERS[(n as usize) / AFTER_USES.len()].0, after_case(n)),
         "accumulate" => format!("{} x{} :: {}", ACC_STEPS[(n as usize) / ACC_COUNTS.len()].0, ACC_COUNTS[(n as usize) % ACC_COUNTS.len()], acc_case(n)),
         _ => String::new(),
@@ -570,6 +680,14 @@ pub fn main(args: Args) -> i32 {
     let nafter = (AFTER_MAKERS.len() * AFTER_USES.len()) as u64;
     shards.extend(crash::shards_for("afterlife", nafter, 100, "2m", "release"));
     shards.extend(crash::shards_for("afterlife", nafter, 100, "2m", "debug"));
+    let ncompose = (COMPOSE_INNER.len() * COMPOSE_PLACES.len() * COMPOSE_VIA.len()) as u64;
+    shards.extend(crash::shards_for("compose", ncompose, 100, "2m", "release"));
+    shards.extend(crash::shards_for("compose", ncompose, 100, "2m", "debug"));
+    let nbig = (BIG_LAZY_FILTERS.len() * BIG_LAZY_RECEIVERS.len()) as u64;
+    shards.extend(crash::shards_for("big_lazy", nbig, 5, "2m", "release"));
+    let ncounts = (COUNT_KINDS.len() * COUNT_NS.len()) as u64;
+    shards.extend(crash::shards_for("counts", ncounts, 20, "2m", "release"));
+    shards.extend(crash::shards_for("counts", ncounts, 20, "2m", "debug"));
     let nfmt = fmt_total();
     shards.extend(crash::shards_for("format_specs", nfmt, 2_000, "2m", "release"));
     let nacc = (ACC_STEPS.len() * ACC_COUNTS.len()) as u64;
@@ -599,6 +717,9 @@ pub fn main(args: Args) -> i32 {
     acc.count("cases_escapes", nesc);
     acc.count("cases_format_specs", nfmt);
     acc.count("cases_afterlife", nafter * 2);
+    acc.count("cases_compose", ncompose * 2);
+    acc.count("cases_big_lazy", nbig);
+    acc.count("cases_counts", ncounts * 2);
     acc.count("cases_accumulate", nacc * if quick { 2 } else { 4 });
     // distinct non-trivial: cases that got as far as rendering or a render error (not a load error)
     let nontrivial = res.outcomes.get("rendered").copied().unwrap_or(0) + res.outcomes.get("render error").copied().unwrap_or(0) + res.outcomes.get("expr ok").copied().unwrap_or(0) + res.outcomes.get("expr error").copied().unwrap_or(0);
@@ -645,7 +766,7 @@ pub fn main(args: Args) -> i32 {
             level: "exploration",
             tier: args.tier,
             seed: args.seed,
-            rule: format!("supervised child processes (RLIMIT_AS 4 GiB, per-case wall cap, panics caught, deaths attributed to the published case): (1) every string of <= {} fragments over a 24-fragment alphabet as template and as expression; (2) every sequence of <= {} tags over 38 tags with canned arguments; (3) every built-in and contrib filter/test/method x 8 receivers and every function, x every argument tuple of arity <= {} over a 14-value boundary alphabet; (4) 12 operators + 11 argument-taking built-ins over all pairs of the edge value alphabet; (5) 31 chain/nesting shapes x depths 150/151/2000/20000/200000 on the main thread and a 2 MiB thread in an opt-level-0 build (thorough: also the checked-release build); (6) every program of the depth-2 generator space with loop controls; (7) every string literal (both quote styles, as output, as assignment + include name, and as expression) whose body is a sequence of at most {} pieces out of 28 (every escape form well-formed, truncated and out of range, surrogate halves in both roles, plain and multi-byte characters, a trailing backslash); (8) 22 run-time value chains built by loops (33 / 1000 / 30 000 iterations); (9) every format specification flags x width x precision x conversion x value (7 x 10 x 10 x 18 x 7, numbers up to 2^64) through the format filter and through str.format; (10) 15 kinds of objects that outlive the construct that made them (loop objects after exhaustion / break / recursion, caller, macros from loops and macros, self, namespaces, cycler, joiner) x 33 ways of using them afterwards. Each case: load, render, format the error in five forms. Oracle: no panic, no signal, no abort. distinct non-trivial = cases that reached evaluation (rendered or failed at run time)", if quick { 4 } else { 5 }, if quick { 3 } else { 4 }, barity, if quick { 3 } else { 4 }),
+            rule: format!("supervised child processes (RLIMIT_AS 4 GiB, per-case wall cap, panics caught, deaths attributed to the published case): (1) every string of <= {} fragments over a 24-fragment alphabet as template and as expression; (2) every sequence of <= {} tags over 38 tags with canned arguments; (3) every built-in and contrib filter/test/method x 8 receivers and every function, x every argument tuple of arity <= {} over a 14-value boundary alphabet; (4) 12 operators + 11 argument-taking built-ins over all pairs of the edge value alphabet; (5) 31 chain/nesting shapes x depths 150/151/2000/20000/200000 on the main thread and a 2 MiB thread in an opt-level-0 build (thorough: also the checked-release build); (6) every program of the depth-2 generator space with loop controls; (7) every string literal (both quote styles, as output, as assignment + include name, and as expression) whose body is a sequence of at most {} pieces out of 28 (every escape form well-formed, truncated and out of range, surrogate halves in both roles, plain and multi-byte characters, a trailing backslash); (8) 22 run-time value chains built by loops (33 / 1000 / 30 000 iterations); (9) every format specification flags x width x precision x conversion x value (7 x 10 x 10 x 18 x 7, numbers up to 2^64) through the format filter and through str.format; (10) 15 kinds of objects that outlive the construct that made them (loop objects after exhaustion / break / recursion, caller, macros from loops and macros, self, namespaces, cycler, joiner) x 33 ways of using them afterwards; (11) 15 special calls and tags (super(), self.block(), caller(), loop, extends, ...) in a template reached by include / import / from-import / include list from 9 kinds of places; (12) 25 collecting filters over 6 lazily repeated sequences just under and far over the size the engine accepts; (13) N distinct things of one kind in one template (filters and tests in dead and live code, locals, macro parameters, macros, blocks, call arguments, keyword arguments, list items, map keys, with and unpack targets, nested attributes, filter arguments, includes, set blocks, loop targets, concatenations) for 20 values of N around 32, 50, 64, 128, 256, 1000, 4096 and 65536. Each case: load, render, format the error in five forms. Oracle: no panic, no signal, no abort. distinct non-trivial = cases that reached evaluation (rendered or failed at run time)", if quick { 4 } else { 5 }, if quick { 3 } else { 4 }, barity, if quick { 3 } else { 4 }),
             exhaustive: true,
             bound: json!({"fragments": FRAGS, "tags": TAGS, "args": ARGS, "receivers": RECEIVERS, "depth_shapes": DEPTH_SHAPES, "depths": DEPTHS}),
             assumptions: vec!["a timeout is recorded as inconclusive, not as a crash".into(), "byte strings longer than the fragment bound and arguments off the boundary alphabet are not explored".into()],
